@@ -39,6 +39,7 @@ NORMALISATIONS = [
     'logging macros fail!/fatal_panic!/warn!/error!/debug!/trace!/info! are regenerated from '
     'iceoryx2-log/log/src/{fail,log}.rs of the current tree with the logging statements deleted '
     '(control flow kept; message arguments not evaluated)',
+    '`match E { b".." => X, .., _ => Z }` on a slice becomes an if / else-if chain generated from the literals',
     '`matches!(E, b".." | b"..")` on a slice is expanded to length + element comparisons generated from the literals (Verus mis-encodes byte-string patterns)',
     'a `const NAME: T = e;` item inside a function body becomes `let NAME: T = e;` (Verus gives body-local consts spec mode)',
     '`//@ inline NAME`: a parameterless non-escaping local closure is inlined at its call sites (calls must be in return position, or of the form `NAME()?` when the closure leaves early only through `?` / fail!, when the closure can leave early; not inside loops / other closures)',
@@ -236,6 +237,22 @@ def _inline_closure(body, name, label, log):
     return ''.join(out)
 
 
+def _expand_bytes_match_stmt(body):
+    """match E { b"a" => X, b"bc" => Y, _ => Z } (E an identifier, arms without commas) -> if / else-if chain with length + element
+    comparisons generated from the literals (same reason as _expand_bytes_matches)."""
+    rx = re.compile(r'match\s+(\w+)\s*\{((?:\s*b"(?:[^"\\]|\\.)*"\s*=>\s*[^,{}]+,)+)\s*_\s*=>\s*([^,{}]+?),?\s*\}')
+    def rep(mm):
+        e = mm.group(1)
+        arms = re.findall(r'(b"(?:[^"\\]|\\.)*")\s*=>\s*([^,{}]+),', mm.group(2))
+        out = []
+        for lit, expr in arms:
+            bs = _bytes_of_literal(lit)
+            cond = ' && '.join(['%s.len() == %d' % (e, len(bs))] + ['%s[%d] == %du8' % (e, k, b) for k, b in enumerate(bs)])
+            out.append('if %s { %s }' % (cond, expr.strip()))
+        return ' else '.join(out) + ' else { %s }' % mm.group(3).strip()
+    return rx.sub(rep, body)
+
+
 def _name_return(sig, ret):
     """`-> T` => `-> (ret: T)` at bracket depth 0 of the signature (where clauses kept)."""
     m = rsrc.mask(sig)
@@ -397,13 +414,27 @@ def _emit_fn(fb, src, out, meta):
     a = fb.args
     t, m = src(a['file'])
     scope = [x.strip() for x in a.get('scope', '').split(';;') if x.strip()]
-    try:
-        it = rsrc.find_item(t, scope, 'fn ' + a['item'], m)
-    except rsrc.AnchorError as e:
-        raise Undecided('anchor %s :: fn %s: %s' % (a['file'], a['item'], e))
-    label = '%s :: %s' % (a['file'], ' :: '.join(scope + ['fn ' + a['item']]))
-    sig = it.signature
-    body = it.body
+    if 'closure_after' in a:
+        # a closure literal that is an argument of a macro invocation (e.g. the validators passed to semantic_string!):
+        # `closure_after` is a regex that ends right before the closure's `|params|`; the closure is emitted as a function
+        # `fn <item>(<params>) -> <ret>` with the closure's block as its body
+        cands = [mm for mm in re.finditer(a['closure_after'] + r'\s*\|([^|]*)\|\s*(?=\{)', m)]
+        if len(cands) != 1:
+            raise Undecided('anchor %s :: closure after %r matched %d times' % (a['file'], a['closure_after'], len(cands)))
+        mm = cands[0]
+        o = mm.end()
+        e = rsrc.match_close(m, o)
+        label = '%s :: closure %s' % (a['file'], a['item'])
+        sig = 'fn %s(%s) -> %s' % (a['item'], t[mm.start(1):mm.end(1)].strip(), a.get('cret', 'bool'))
+        body = t[o:e]
+    else:
+        try:
+            it = rsrc.find_item(t, scope, 'fn ' + a['item'], m)
+        except rsrc.AnchorError as e:
+            raise Undecided('anchor %s :: fn %s: %s' % (a['file'], a['item'], e))
+        label = '%s :: %s' % (a['file'], ' :: '.join(scope + ['fn ' + a['item']]))
+        sig = it.signature
+        body = it.body
     # --- global normalisations
     sig = re.sub(r'^(pub(\([a-z]+\))?\s+)?', 'pub ', sig)
     if a.get('recv') == 'mut':
@@ -418,6 +449,7 @@ def _emit_fn(fb, src, out, meta):
     body = rsrc.strip_comments(body)      # comments are not code: rewrites and the verifier see the body without them
     body = _split_debug_assert(body)
     body = _expand_bytes_matches(body)
+    body = _expand_bytes_match_stmt(body)
     body = re.sub(r'(?m)^([ \t]*)const ([A-Z_][A-Z0-9_]*)\s*:', r'\1let \2:', body)
     body = re.sub(r'(?m)^[ \t]*self\.verify_init\([^;]*\);[ \t]*\n', '', body)
     body = re.sub(r'(?m)^[ \t]*#\[(inline|allow|cfg_attr|deny)[^\]]*\]\s*\n', '', body)
